@@ -83,6 +83,29 @@ pub const LADDERS: &[&[&str]] = &[
 ];
 pub const LADDER_LEN: usize = 400;
 
+pub fn escape_texts() -> Vec<String> {
+    let mut out = vec![];
+    let hex = ["", "0", "41", "3bb", "D800", "dfff", "DBFF", "FFFE", "10FFFF", "110000", "FFFFFFFF", "FFFFFFFFF", "100000000", "g", "4g", "-1", " 41"];
+    for h in hex {
+        for term in [";", "", " ;"] {
+            out.push(format!("\"\\x{}{}\"", h, term));
+            out.push(format!("\"a\\x{}{}b\"", h, term));
+            out.push(format!("'|\\x{}{}|", h, term));
+            out.push(format!("#\\x{}{}", h, term));
+        }
+    }
+    for e in ["a", "b", "t", "n", "r", "0", "q", "\\", "\"", "|", "x", "u", "U", " ", "\n", "\t"] {
+        out.push(format!("\"\\{}\"", e));
+        out.push(format!("\"\\{}", e));
+        out.push(format!("'|\\{}|", e));
+    }
+    for c in ["#\\space", "#\\newline", "#\\tab", "#\\nul", "#\\null", "#\\alarm", "#\\delete", "#\\escape", "#\\return", "#\\backspace", "#\\", "#\\λ", "#\\xyz", "#\\(", "#\\#", "#\\\\"] {
+        out.push(c.to_string());
+        out.push(format!("(list {} 1)", c));
+    }
+    out
+}
+
 pub const SANITY: &[(&str, &str)] = &[
     ("(let ((sanity-v (make-vector 3 7))) (if (< 2 (vector-length sanity-v)) (cddr (quote (1 2 3 4))) 0))", "(3 4)"),
     ("((lambda (sanity-k . sanity-r) (- sanity-k 1)) 43 0)", "42"),
@@ -329,6 +352,11 @@ impl Spaces {
         for k in 0..LADDERS.len() {
             bytes_cases.push((format!("ladder of {} x {:?}", LADDER_LEN, LADDERS[k]), vec![k as u8], "ladder"));
         }
+        // escape sequences in string / character / symbol tokens, well-formed or not (hex escapes of
+        // surrogates and of values beyond U+10FFFF, missing terminators, unknown escape letters)
+        for t in escape_texts() {
+            bytes_cases.push((format!("escape text {:?}", t), t.into_bytes(), "text"));
+        }
         bytes_cases.push(("program path is a directory".into(), vec![], "eval_file-directory"));
         bytes_cases.push(("library path is a directory".into(), vec![], "file-import-directory"));
         bytes_cases.push(("program file missing".into(), vec![], "eval_file-missing"));
@@ -559,6 +587,13 @@ pub fn run_case(pooled: &mut Interp, c: &CaseInput) -> CaseOutcome {
                     return match Interp::new() {
                         Ok(mut i2) => judge_outcome(&Outcome::Val(Obs::NoValue), sanity(&mut i2, false)),
                         Err(p) => CaseOutcome { class: "panic:construction".into(), detail: p.clone(), bad: Some(format!("PANIC constructing an interpreter after the ladder: {}", p)) },
+                    };
+                }
+                if kind == "text" {
+                    let text = String::from_utf8_lossy(&data).to_string();
+                    return match Interp::new() {
+                        Ok(mut it) => run_on(&mut it, &text),
+                        Err(p) => CaseOutcome { class: "panic:construction".into(), detail: p.clone(), bad: Some(format!("PANIC constructing an interpreter: {}", p)) },
                     };
                 }
                 let o = match kind {
